@@ -195,3 +195,8 @@ def _arg0_chain(body, op, depth=0):
     else:
       term.append(o)
   return chain, term
+
+
+# sensitivity pack (thorough tier): each seeded edit must be reported by the named rule instance
+MUTANTS = [{'name': 'seeded-C07-a', 'patch': 'C07-a/patch.diff', 'expect': ('R7.1', 'index_inscriptions', 'seen.insert')},
+           {'name': 'seeded-C07-b', 'patch': 'C07-b/patch.diff', 'expect': ('R7.4', 'update_inscription_location', 'remove(old_latest')}]
